@@ -194,6 +194,10 @@ fn alphabet() -> Vec<O> {
     a.push(O::Base(Op::Dec { pos: 0, part: Part::All, v2: false }));
     a.push(O::Base(Op::Dec { pos: 1, part: Part::Half, v2: true }));
     a.push(O::Base(Op::Dec { pos: 2, part: Part::All, v2: true }));
+    // reposition_liquidity_v2: withdraws everything (crediting what accrued), re-ranges, deposits again — what was owed stays owed
+    a.push(O::Base(Op::Repos { pos: 0, lower: -64, upper: 192, liq: stdworlds::BIG / 2 }));
+    a.push(O::Base(Op::Repos { pos: 0, lower: -128, upper: 128, liq: stdworlds::BIG }));
+    a.push(O::Base(Op::Repos { pos: 1, lower: 192, upper: 5696, liq: 12_345 })); // out of range at the start price
     a
 }
 
@@ -421,7 +425,7 @@ impl<'a> Model for M<'a> {
         match op {
             O::Base(Op::Swap { .. }) => self.accrue(&s.l, s.last, ts, &mut g, true),
             O::SetEmissions { .. } => self.accrue(&s.l, s.last, ts, &mut g, true),
-            O::Base(Op::Inc { pos, .. }) | O::Base(Op::Dec { pos, .. }) | O::Base(Op::Update { pos }) => {
+            O::Base(Op::Inc { pos, .. }) | O::Base(Op::Dec { pos, .. }) | O::Base(Op::Update { pos }) | O::Base(Op::Repos { pos, .. }) => {
                 self.accrue(&s.l, s.last, ts, &mut g, true);
                 let pi = *pos as usize;
                 self.settle(&mut g[pi], true);
@@ -454,7 +458,7 @@ impl<'a> Model for M<'a> {
             }
             _ => {}
         }
-        let settles = matches!(op, O::Base(Op::Swap { .. }) | O::SetEmissions { .. } | O::Base(Op::Inc { .. }) | O::Base(Op::Dec { .. }) | O::Base(Op::Update { .. }));
+        let settles = matches!(op, O::Base(Op::Swap { .. }) | O::SetEmissions { .. } | O::Base(Op::Inc { .. }) | O::Base(Op::Dec { .. }) | O::Base(Op::Update { .. }) | O::Base(Op::Repos { .. }));
         Ok(Some(St { l, g, last: if settles { ts.max(s.last) } else { s.last } }))
     }
     fn check_state(&self, s: &St) -> Result<(), String> {
@@ -483,7 +487,8 @@ impl<'a> Model for M<'a> {
                 any_funded = Some(pi);
                 self.accrue(&c, last, c.unix_ts, &mut g, false);
                 last = last.max(c.unix_ts);
-                let o = svm::process(&mut c, &world::ix_update_fees_and_rewards(p));
+                let upd = world::ix_update_fees_and_rewards(&p.at(&c));
+                let o = svm::process(&mut c, &upd);
                 if !o.ok() {
                     return Err(format!("update_fees_and_rewards failed on a funded position: {}", o.short()));
                 }
@@ -501,8 +506,8 @@ impl<'a> Model for M<'a> {
                 let mut b = s.l.clone();
                 b.unix_ts = pool.reward_last_updated_timestamp as i64 - 1;
                 for ix in [
-                    world::ix_update_fees_and_rewards(&w.positions[pi]),
-                    world::ix_increase(&w.positions[pi], &w.lp, 1000, u64::MAX, u64::MAX, pi % 2 == 0),
+                    world::ix_update_fees_and_rewards(&w.positions[pi].at(&b)),
+                    world::ix_increase(&w.positions[pi].at(&b), &w.lp, 1000, u64::MAX, u64::MAX, pi % 2 == 0),
                     ops::build(&b, w, &Op::Swap { a_to_b: true, exact_in: true, amount: 1000, lim: Lim::None, v2: false }).unwrap(),
                 ] {
                     let mut bb = b.clone();
